@@ -961,7 +961,7 @@ impl MachineState {
                 if name == atom!("-") && arity == 2 {
                     Ok((heap_loc_as_cell!(s+1), heap_loc_as_cell!(s+2)))
                 } else {
-                    let err = self.type_error(ValidType::Pair, self.heap[s]);
+                    let err = self.type_error(ValidType::Pair, store_v);
                     Err(self.error_form(err, stub_gen()))
                 }
             }
